@@ -268,27 +268,30 @@ func c15r3(r *R) {
 	}
 	r.check(n >= 2 && len(why) == 0, "maybeHandshakeTLS#timeout", mh.Pos(), "handshake context bounded by TLSHandshakeTimeout when positive", strings.Join(why, "; "))
 	hm := r.method(mpkg, "proxyConn", "handleMITM")
-	var hs *ssa.Call
-	for _, c := range calls(hm, nameIs("(*crypto/tls.Conn).HandshakeContext")) {
-		hs = c.(*ssa.Call)
-	}
+	// path by path (whatever shape the code has: if/else, default then override, a helper): the handshake context
+	// is WithTimeout(…, MITMTLSHandshakeTimeout) exactly on the paths where that timeout is positive
 	good := false
-	if hs != nil {
-		if phi, ok := refArgs(hs.Common())[1].(*ssa.Phi); ok {
-			var sawBounded, sawPlain bool
-			for i, e := range phi.Edges {
-				d := describe(e)
-				pred := phi.Block().Preds[i]
-				if strings.HasPrefix(d, "context.WithTimeout(") && strings.HasSuffix(d, ", $0.Proxy.MITMTLSHandshakeTimeout)#0") && guardedBy(pred, eq("($0.Proxy.MITMTLSHandshakeTimeout > 0)")) {
-					sawBounded = true
-				} else if guardedBy(pred, eq("!($0.Proxy.MITMTLSHandshakeTimeout > 0)")) {
-					sawPlain = true
-				}
+	{
+		hps, complete := enumPaths(hm, 50000, 1)
+		nm, nBounded := 0, 0
+		okAll := complete
+		for _, p := range hps {
+			hi := p.eventIndex(0, "call", prefix("(*crypto/tls.Conn).HandshakeContext("))
+			if hi < 0 {
+				continue
 			}
-			good = sawBounded && sawPlain
-		} else {
-			good = boundedByHelper(refArgs(hs.Common())[1], "$0.Proxy.MITMTLSHandshakeTimeout")
+			nm++
+			pos := p.holds("($0.Proxy.MITMTLSHandshakeTimeout > 0)")
+			d := p.Events[hi].Desc
+			bounded := strings.Contains(d, "context.WithTimeout(") && strings.Contains(d, ", $0.Proxy.MITMTLSHandshakeTimeout)#0")
+			if pos != bounded {
+				okAll = false
+			}
+			if bounded {
+				nBounded++
+			}
 		}
+		good = okAll && nm >= 2 && nBounded >= 1 // a handshake that is never bounded is not bounded "when the timeout is positive"
 	}
 	r.check(good, "handleMITM#handshake-timeout", hm.Pos(), "MITM handshake bounded by MITMTLSHandshakeTimeout when positive", "the MITM handshake is not bounded by its configured timeout")
 }
@@ -313,6 +316,11 @@ func c15r4(r *R) {
 				return
 			}
 			a := describe(st.Addr)
+			// a field of the martian.Proxy being configured, whether it is reached through hp.proxy or is the literal
+			// that becomes hp.proxy
+			if fa, ok := st.Addr.(*ssa.FieldAddr); ok && structName(fa.X.Type()) == "martian.Proxy" {
+				a = ".proxy." + fieldName(fa.X.Type(), fa.Field)
+			}
 			for suffix, src := range want {
 				if strings.HasSuffix(a, suffix) {
 					seen[suffix] = true
@@ -347,11 +355,12 @@ func c15r4(r *R) {
 }
 
 func c15r5(r *R) {
+	// census: only readRequest (read side) and writeResponse (write side) touch the client connection's deadlines.
+	// Calls are attributed to the reference function they belong to (its literals and split-out helpers included).
 	type site struct{ fn, method string }
 	allowed := map[site]int{
-		{"(*martian.proxyConn).readRequest", "SetReadDeadline"}:      3,
-		{"(*martian.proxyConn).writeResponse", "SetWriteDeadline"}:   1, // armed
-		{"(*martian.proxyConn).writeResponse$1", "SetWriteDeadline"}: 1, // cleared (deferred)
+		{"(*martian.proxyConn).readRequest", "SetReadDeadline"}:    3,
+		{"(*martian.proxyConn).writeResponse", "SetWriteDeadline"}: 2, // armed, and cleared on exit
 	}
 	got := map[site]int{}
 	for _, fn := range r.modFuncs() {
@@ -368,27 +377,13 @@ func c15r5(r *R) {
 			if m != "SetDeadline" && m != "SetReadDeadline" && m != "SetWriteDeadline" {
 				return
 			}
-			s := site{n, m}
+			s := site{outerName(n), m}
 			got[s]++
-			key := n + "#" + m
 			if _, ok := allowed[s]; !ok {
-				r.bad(key, c.Pos(), m+" is called outside the two places that own the client connection's deadlines; a deadline armed here keeps running while the origin is answering (or is never cleared)")
+				r.bad(n+"#"+m, c.Pos(), m+" is called outside the two places that own the client connection's deadlines; a deadline armed here keeps running while the origin is answering (or is never cleared)")
 				return
 			}
-			switch {
-			case n == "(*martian.proxyConn).writeResponse":
-				arg := describe(refArgs(c.Common())[len(c.Common().Args)-1])
-				armed := arg == "(time.Time).Add(time.Now(), $0.Proxy.WriteTimeout)" || arg == "(time.Time).Add(time.Now(), $0.WriteTimeout)"
-				guard := guardedBy(c.Block(), func(g string) bool { return strings.Contains(g, "WriteTimeout > 0)") && !strings.HasPrefix(g, "!") })
-				r.check(armed && guard, key, c.Pos(), "armed with now+WriteTimeout, only when WriteTimeout is positive", "write deadline is "+arg+" (guarded by WriteTimeout>0: "+fmt.Sprint(guard)+")")
-			case n == "(*martian.proxyConn).writeResponse$1":
-				av := refArgs(c.Common())[len(c.Common().Args)-1]
-				arg := describe(av)
-				k, isConst := av.(*ssa.Const)
-				r.check(isConst && k.Value == nil && typeStr(av.Type()) == "time.Time", key, c.Pos(), "cleared with the zero time", "deferred call sets "+arg)
-			default:
-				r.ok(key, c.Pos(), "read-side deadline in readRequest (ordering decided by C15.R2)")
-			}
+			r.ok(fmt.Sprintf("%s#%s@%d", s.fn, m, got[s]), c.Pos(), "deadline call in the function that owns this side's deadlines (ordering and values decided below / by C15.R2)")
 		})
 	}
 	for s, want := range allowed {
@@ -396,29 +391,68 @@ func c15r5(r *R) {
 			r.bad(s.fn+"#"+s.method+"#count", r.method("internal/martian", "proxyConn", "writeResponse").Pos(), fmt.Sprintf("%s calls %s %d times, the reviewed code does so %d times: a deadline is no longer armed or cleared where it was", s.fn, s.method, got[s], want))
 		}
 	}
-	// the write deadline is armed before anything is written and the clearing literal is deferred
+	// the write deadline, path by path: armed with now+WriteTimeout before the first write exactly when the
+	// timeout is positive, and cleared (zero time) after the last write on the way out
 	wr := r.method("internal/martian", "proxyConn", "writeResponse")
-	var set ssa.Instruction
-	var firstWrite ssa.Instruction
-	deferred := false
-	eachInstr(wr, func(ins ssa.Instruction) {
-		if c, ok := ins.(*ssa.Call); ok {
-			switch {
-			case methodName(c.Common()) == "SetWriteDeadline":
-				set = ins
-			case firstWrite == nil && (calleeName(c.Common()) == "(*net/http.Response).Write" || strings.Contains(calleeName(c.Common()), "writeHeaderOnlyResponse") || strings.Contains(calleeName(c.Common()), "writeUpgradeResponse")):
-				firstWrite = ins
-			}
-		}
-		if d, ok := ins.(*ssa.Defer); ok {
-			if mc, ok := d.Common().Value.(*ssa.MakeClosure); ok && strings.HasSuffix(fname(mc.Fn.(*ssa.Function)), "writeResponse$1") {
-				deferred = true
-			}
-		}
-	})
-	if set != nil && firstWrite != nil {
-		r.check(deferred && !reaches(firstWrite, set), "writeResponse#arm-write-clear", set.Pos(), "armed before the first write, cleared by a deferred call", "the write deadline is armed after a write or is not cleared on exit")
+	// the deferred literal that clears the deadline is walked where the defers run
+	ps, complete := enumPathsInline(wr, 20000, 1, func(c *ssa.Function) bool { return c.Parent() == wr })
+	if !complete {
+		r.undecided("writeResponse#arm-write-clear", wr.Pos(), "too many paths")
+		return
 	}
+	var why []string
+	nOn := 0
+	for _, p := range ps {
+		on, known := p.outcome("($0.Proxy.WriteTimeout > 0)")
+		if !known {
+			on, known = p.outcome("($0.WriteTimeout > 0)")
+		}
+		var sets []int
+		firstWrite, lastWrite := -1, -1
+		for i, e := range p.Events {
+			if e.Kind != "call" {
+				continue
+			}
+			switch {
+			case strings.HasPrefix(e.Desc, "invoke net.Conn.SetWriteDeadline("):
+				sets = append(sets, i)
+			case strings.HasPrefix(e.Desc, "(*net/http.Response).Write(") || strings.Contains(e.Desc, "writeHeaderOnlyResponse(") || strings.Contains(e.Desc, "writeUpgradeResponse(") || strings.HasPrefix(e.Desc, "(*bufio.Writer).Flush("):
+				if firstWrite < 0 {
+					firstWrite = i
+				}
+				lastWrite = i
+			}
+		}
+		argOf := func(i int) string {
+			d := p.Events[i].Desc
+			return strings.TrimSuffix(d[strings.Index(d, ", ")+2:], ")")
+		}
+		switch {
+		case known && on:
+			nOn++
+			if len(sets) < 2 {
+				why = append(why, fmt.Sprintf("with a positive WriteTimeout the deadline is set %d times on a path (armed and cleared expected)", len(sets)))
+				continue
+			}
+			arm, clr := argOf(sets[0]), argOf(sets[len(sets)-1])
+			if arm != "(time.Time).Add(time.Now(), $0.Proxy.WriteTimeout)" && arm != "(time.Time).Add(time.Now(), $0.WriteTimeout)" {
+				why = append(why, "write deadline armed with "+shorten(arm, 70))
+			}
+			if firstWrite >= 0 && sets[0] > firstWrite {
+				why = append(why, "the write deadline is armed after a write")
+			}
+			if clr != "nil" || lastWrite >= 0 && sets[len(sets)-1] < lastWrite {
+				why = append(why, "the write deadline is not cleared after the last write (last call sets "+shorten(clr, 50)+")")
+			}
+		default:
+			for _, i := range sets {
+				if a := argOf(i); a != "nil" {
+					why = append(why, "a write deadline ("+shorten(a, 60)+") is armed although WriteTimeout is not known to be positive")
+				}
+			}
+		}
+	}
+	r.check(nOn > 0 && len(why) == 0, "writeResponse#arm-write-clear", wr.Pos(), fmt.Sprintf("%d paths with a positive WriteTimeout: armed with now+WriteTimeout before the first write, cleared after the last", nOn), strings.Join(dedupStrings(why), "; "))
 }
 
 // zeroWhenOffOnPaths: on every path of readRequest the idx-th read deadline that is set is computed from
